@@ -34,6 +34,28 @@ def run(ctx, escalated=False):
         ctx.count("conductor-throttle:%d" % r["options"]["throttle"])
         if k % 30 == 29:
             shutil.rmtree(os.path.join(ctx.scratch, "cond"), ignore_errors=True)
+    # directed: a parameterised step whose children inherit its parameters without naming them,
+    # launched the way a user does (`maestro run [-fg] -t N`) with a throttle between the number of
+    # steps-as-written and the number of instances (seeded change C03-l dropped such a throttle on
+    # the way from the command line to the study)
+    for k in range(12 if quick else 200):
+        c_, k_ = ctx.rng.choice([3, 4, 5]), ctx.rng.choice([2, 3])
+        n_ = ctx.rng.randint(c_ + k_, c_ * k_ - 1)
+        study = [{"name": "sim", "description": "d", "run": {"cmd": "echo $(X) > out"}}]
+        for j in range(k_):
+            study.append({"name": "post-%s" % "abc"[j], "description": "d",
+                          "run": {"cmd": "echo post%d" % j, "depends": ["sim"]}})
+        spec = {"description": {"name": "wide", "description": "children that inherit parameters"},
+                "study": study,
+                "global.parameters": {"X": {"values": list(range(1, c_ + 1)), "label": "X.%%"}}}
+        r = condsim.run(ctx, ctx.rng, "w%d" % k, entry=("fg", "bg")[k % 2], spec=spec,
+                        force={"throttle": n_, "rlimit": 0, "attempts": 1, "_world": "benign"})
+        if r is None:
+            continue
+        extra.append(Case({"kind": "conductor-wide", "spec": r["spec"], "polls": r["polls"], "returned": r["ret"],
+                           "entry": r["entry"], "options": r["options"]}, [], [], r["mon"]["C03"][:3], True))
+        ctx.count("conductor-wide-inheriting")
+    shutil.rmtree(os.path.join(ctx.scratch, "cond"), ignore_errors=True)
     import scripted as S
     S.install()
     # throttled scenarios with the real Slurm / LSF `check_jobs` in the loop: a job the scheduler's
